@@ -78,7 +78,7 @@ GATES = {
 
 TIERS = {
     "quick": dict(traces=960, max_events=60, mc_timeout=240, batch=10),
-    "thorough": dict(traces=3000, max_events=150, mc_timeout=1500, batch=40),
+    "thorough": dict(traces=2000, max_events=120, mc_timeout=420, batch=40),
 }
 
 
@@ -246,7 +246,11 @@ def run_check(prop, tier, seed):
     # (CIWVERIF_SKIP_MC=1, used only by tools/eval_seeds.sh: a change to the library cannot alter the outcome of
     #  model checking the specification, so the seed evaluation skips this phase)
     for fam in ([] if os.environ.get("CIWVERIF_SKIP_MC") else P["mc"]):
-        for k, (scs, maxc) in enumerate(mc_instances(fam, tier)):
+        # thorough tier: the enlarged instance (one more customer, longer horizon) for the property's first three
+        # families, the quick-size instance for the others (an enlarged instance that hits the time limit is reported
+        # as not exhaustive, never as a failure)
+        mtier = tier if (tier != "thorough" or P["mc"].index(fam) < 3) else "quick"
+        for k, (scs, maxc) in enumerate(mc_instances(fam, mtier)):
             cfgs = [tlc.cfg_of(copy.deepcopy(s)) for s in scs]
             r = tlc.run_mc(os.path.join(work, "mc_%s_%d" % (fam, k)), cfgs, ["NoCrash"] + P["inv"], P["step"],
                            max_created=maxc, timeout=T["mc_timeout"])
@@ -278,9 +282,9 @@ def run_check(prop, tier, seed):
             scs2 = [dict(copy.deepcopy(s), T=10 ** 5) for s in scs]
             cfgs = [tlc.cfg_of(copy.deepcopy(s)) for s in scs2]
             r = tlc.run_mc(os.path.join(work, "sim_%s_%d" % (fam, k)), cfgs, [], [], max_created=100, timeout=120,
-                           simulate=(30 if tier == "quick" else 300), depth=14, seed=seed, export=True, workers=4)
+                           simulate=(30 if tier == "quick" else 100), depth=14, seed=seed, export=True, workers=4)
             behs = tlc.parse_behaviours(r["out"])
-            for b in behs[:(40 if tier == "quick" else 400)]:
+            for b in behs[:(40 if tier == "quick" else 120)]:
                 nb_beh += 1
                 rjobs.append((fam, 900000 + nb_beh, normalise(copy.deepcopy(scs2[b[0]["idx"] - 1])), b))
     rres = run_pool(replay_one, rjobs) if rjobs else []
